@@ -137,7 +137,7 @@ fn deblock_horiz(result: &mut [u8], width: usize, strength: u8) {
     let height = result.len() / width;
 
     let mut edge_y = 8; // the vertical index of the row with the "C" samples
-    while edge_y <= height - 2 {
+    while edge_y + 2 <= height {
         // breaking out four rows, one for each of the ABCD samples
         let (_, rest) = result.split_at_mut((edge_y - 2) * width);
         let (row_a, rest) = rest.split_at_mut(width);
